@@ -270,6 +270,14 @@ def call_class(cost_obj, X, beta, m, n_train=None):
     n, p = X.shape
     n_train = n if n_train is None else n_train
     scale = beta / (2 * p * math.log(n_train))
+    if cost_obj is not None:
+        # the cost object has a past: it was fitted to wider data and is shared with another detector (nothing of that may matter)
+        try:
+            wide = np.hstack([X, 0.5 * X[:, :1] + 1.0, X[:, :1] ** 2 - 2.0])
+            cost_obj.fit(wide)
+            PELT(cost=cost_obj, penalty_scale=scale + 1.0, min_segment_length=m + 1)
+        except Exception:
+            pass
     det = PELT(cost=cost_obj, penalty_scale=scale, min_segment_length=m)
     train = X if n_train == n else np.vstack([X, X, X])[:n_train]
     df = rot_frame(X, 7)
@@ -486,7 +494,7 @@ def run(tier="quick", seed=0, repo="/repo"):
             data_case("L2Cost", X, class_stride=(29 if quick else 43))
             if n >= 4 and (not quick or n <= 5):
                 data_case("GaussianVarCost", X, class_stride=(29 if quick else 43))
-    kinds = ["L2Cost", "L2Cost", "L2Cost(1.0)", "GaussianVarCost", "GaussianVarCost(0,2)", "default(L2Cost)"]
+    kinds = ["L2Cost", "L2Cost", "L2Cost(1.0)", "GaussianVarCost", "GaussianVarCost(0,2)", "default(L2Cost)", "GaussianCovCost"]
     if not quick:
         kinds += ["GaussianCovCost", "L2Cost"]
     n_data = 260 if quick else 3000
